@@ -174,3 +174,37 @@ def run_history(ctx, q):
         vlib.run_harness(['tso', 'history', 'out=' + tr, 'seed=%d' % sd, 'rounds=%d' % (2 if q else 4), 'goroutines=8',
                           'calls=%d' % (100 if q else 200)], timeout=1800)
         ctx.monitor('tso', 'Mon_TSOHistory', 'Mon_TSOHistory.cfg', tr, 'history_%d' % sd)
+
+
+LG_C01 = {'UniqueWithinAllocator', 'LogicalFits', 'ConcurrentGlobalRequestsShareValues', 'RealTimeOrder'}
+LG_C05 = {'NeverEqual', 'RealTimeOrder', 'GlobalBatchAboveEarlierLocal', 'SuffixStable', 'SuffixUniqueAndWideEnough', 'LogicalFits'}
+
+
+def run_local_global(ctx, clauses, q):
+    """a real 3-server cluster with per-datacenter allocators; Mon_LocalGlobal.tla decides. Violations are reported
+    under the property whose clause set contains them; the known finding is matched by clause name."""
+    seeds = [ctx.seed] if q else [ctx.seed + k for k in range(3)]
+    findings = [f for f in vlib.load_findings() if f.get('status') == 'open']
+    for sd in seeds:
+        for gc in (1, 8):
+            tr = os.path.join(ctx.dir, 'lg_%d_%d.ndjson' % (sd, gc))
+            vlib.run_harness(['tso', 'localglobal', 'out=' + tr, 'seed=%d' % (sd * 10 + gc), 'rounds=%d' % (150 if q else 500), 'globalcount=%d' % gc], timeout=2400)
+            bad, evs = ctx.monitor_all('tso', 'Mon_LocalGlobal', 'Mon_LocalGlobal.cfg', tr, 'lg_%d_%d' % (sd, gc), timeout=3000)
+            ctx.extra['local_global_requests'] = ctx.extra.get('local_global_requests', 0) + sum(1 for e in evs if e.get('ev') == 'ts' and not e['err'])
+            ctx.extra['allocator_leader_moves'] = ctx.extra.get('allocator_leader_moves', 0) + sum(1 for e in evs if e.get('ev') == 'transfer')
+            seen = set()
+            for b in bad:
+                if b[1] not in clauses or b[1] in seen:
+                    continue
+                seen.add(b[1])
+                known = [f for f in findings if f.get('signature') == 'LG-' + b[1] and f.get('property') == ctx.pid]
+                if known:
+                    ctx.known_hits[known[0]['id']] = ctx.known_hits.get(known[0]['id'], 0) + sum(1 for x in bad if x[1] == b[1])
+                    continue
+                one = os.path.join(ctx.dir, 'viol_lg_%d_%d_%s.ndjson' % (sd, gc, b[1]))
+                with open(one, 'w') as f:
+                    for e in evs[:b[2]]:
+                        f.write(json.dumps(e) + '\n')
+                ctx.report(b[1], None, one, None, None, 'lg_%d_%d_%s' % (sd, gc, b[1]))
+            if gc == 1:
+                ctx.sample({'kind': 'local and global requests on a real 3-datacenter cluster', 'events': [e for e in evs if e.get('ev') == 'ts'][:6]})
